@@ -324,24 +324,60 @@ def case_categorical(**p):
   from tensorflow_lattice.python import categorical_calibration_layer as CL
   case = Case(PROP, p['name'], {k: v for k, v in p.items() if k != 'name'})
   case.encoded(CL.CategoricalCalibration.__init__, CL.CategoricalCalibration.build)
+  pairs = [tuple(e) for e in p.get('pairs', [])]
   layer = CL.CategoricalCalibration(num_buckets=p['n'], units=p['units'], output_min=p['omin'], output_max=p['omax'],
-                                    kernel_initializer=p['init'], monotonicities=[tuple(e) for e in p.get('pairs', [])] or None)
-  init = layer.kernel_initializer
+                                    kernel_initializer=p['init'], monotonicities=pairs or None)
+  # the initializer that build() really hands to add_weight (captured on this instance), not just the configured one
+  captured = {}
+  orig_add = layer.add_weight
+
+  def cap(*a, **kw):
+    if 'kernel' in str(kw.get('name', a[0] if a else '')):
+      captured['init'] = kw.get('initializer')
+    return orig_add(*a, **kw)
+  layer.add_weight = cap
+  layer.build(tf.TensorShape([None, p['units']]))
+  init = captured.get('init') or layer.kernel_initializer
   tr = Traced(lambda: init(shape=[p['n'], p['units']], dtype=tf.float32), [], name='categorical-init')
   sym.new_ctx()
   (K,) = tr.sym_run()
   case.meta.update(ops=tr.ops_seen, stubs=sym.ctx().stubs)
+  lo = -np.inf if p['omin'] is None else p['omin']
+  hi = np.inf if p['omax'] is None else p['omax']
+
+  def _draws(m):
+    # the solver's witness is a vector of uniform draws; on the real code a fresh layer is built 200 times instead
+    worst, worst_pair, fails = 0.0, 0.0, 0
+    for i in range(200):
+      l2 = CL.CategoricalCalibration(num_buckets=p['n'], units=p['units'], output_min=p['omin'], output_max=p['omax'],
+                                     kernel_initializer=p['init'], monotonicities=pairs or None)
+      l2.build(tf.TensorShape([None, p['units']]))
+      k = np.asarray(l2.kernel.numpy(), dtype=np.float64)
+      worst = max(worst, float(np.max(lo - k)), float(np.max(k - hi)))
+      for (i0, i1) in pairs:
+        worst_pair = max(worst_pair, float(np.max(k[i0] - k[i1])))
+      try:
+        l2.assert_constraints(eps=1e-6)
+      except Exception:  # pylint: disable=broad-except
+        fails += 1
+    return dict(reproduced=bool(worst > 1e-6 or worst_pair > 1e-6 or fails), weak=True,
+                detail=dict(fresh_layers=200, worst_bound_excess=worst, worst_order_violation=worst_pair, assert_constraints_failures=fails))
   bad = []
   for v in K.reshape(-1):
-    bad += [sym.s_cmp('lt', v, Fraction(p['omin'])), sym.s_cmp('gt', v, Fraction(p['omax']))]
-  def _draws(m):
-    # the solver's witness is a vector of uniform draws; on the real code the initializer is drawn 200 times instead
-    worst = 0.0
-    for i in range(200):
-      k = np.asarray(init(shape=[p['n'], p['units']], dtype=tf.float32), dtype=np.float64)
-      worst = max(worst, float(np.max(p['omin'] - k)), float(np.max(k - p['omax'])))
-    return dict(reproduced=bool(worst > 1e-6), weak=True, detail=dict(worst_excess_over_200_draws=worst))
+    if p['omin'] is not None:
+      bad.append(sym.s_cmp('lt', v, Fraction(p['omin'])))
+    if p['omax'] is not None:
+      bad.append(sym.s_cmp('gt', v, Fraction(p['omax'])))
   case.solve('initial-values-within-bounds', core.any_of(bad), witness={}, timeout=30, sig=dict(query='cat-init'), inline_replay=_draws)
+  if pairs:
+    bad = [sym.s_cmp('gt', K[i0, u], K[i1, u]) for (i0, i1) in pairs for u in range(p['units'])]
+    case.solve('initial-values-ordered-by-every-pair', core.any_of(bad), witness={}, timeout=30,
+               sig=dict(query='cat-init-order', init=p['init']), inline_replay=_draws)
+  tra = Traced(lambda: (layer.assert_constraints(eps=2.0 ** -14), tf.constant(0.0))[1], [], name='CategoricalCalibration.assert_constraints')
+  tra.sym_run(var_values={layer.kernel.ref(): K})
+  passes, _ = c12._passes(tra)
+  case.solve('initial-kernel-passes-assert_constraints', z3.Not(passes), witness={}, timeout=30,
+             sig=dict(query='cat-init-assert', init=p['init'], has_pairs=bool(pairs)), inline_replay=_draws)
   return case
 
 
@@ -449,6 +485,10 @@ def cases(tier, seed):
     add('case_kfl', ls=3, dims=2, units=2, terms=1, mono=[0, 1], omin=omin, omax=omax, required=False, timeout=60)
   add('case_categorical', n=3, units=2, omin=0.0, omax=1.0, init='uniform')
   add('case_categorical', n=4, units=1, omin=-2.0, omax=-1.0, init='constant')
+  add('case_categorical', n=3, units=2, omin=0.0, omax=1.0, init='uniform', pairs=[[0, 1]])
+  add('case_categorical', n=4, units=1, omin=-1.0, omax=2.0, init='uniform', pairs=[[0, 1], [1, 3], [2, 3]])
+  add('case_categorical', n=3, units=1, omin=0.0, omax=1.0, init='constant', pairs=[[0, 2]])
+  add('case_categorical', n=3, units=1, omin=None, omax=None, init='uniform', pairs=[[1, 0]])
   if tier == 'thorough':
     add('case_lattice_linear', sizes=[4, 3, 2], units=2, mono=[1, 0, 0], uni=[0, 1, 0], omin=-1.0, omax=2.5, init='linear_initializer')
     add('case_lattice_random', sizes=[2, 3, 2], units=1, mono=[1, 1, 1], omin=0.0, omax=1.0, init='random_monotonic_initializer',
